@@ -92,6 +92,11 @@ def run(chk):
         inputs = [[r.choice([97, 98, 99, 100, 101, 102, 32, 46]) for _ in range(r.range(1, 16))] for _ in range(8)]
         tcases = [trans.case_line("T", 4, i, 6 * len(i) + 10, presence=8) for i in inputs] + \
                  [trans.case_line("B", 4, [0x8000 | r.range(0, 63) for _ in range(r.range(1, 10))], 60) for _ in range(4)]
+        # the display side of the additions (display rules, and the mapping every one-cell definition adds): character -> cell
+        # and cell -> character over printable ASCII, the characters the generated rules may define, and all 6-dot cells
+        dchars = list(range(33, 127)) + list(range(0x100, 0x120)) + list(range(0x2460, 0x2466))
+        tcases += [trans.case_line("C", 0, dchars, len(dchars)), trans.case_line("D", 0, [0x8000 | v for v in range(64)], 64),
+                   trans.case_line("T", 0, inputs[0], 6 * len(inputs[0]) + 10), trans.case_line("B", 0, [r.range(33, 126) for _ in range(6)], 40)]
         lines = ["K %s | %s" % (other, "always ab 1")]      # another list: must not be affected
         accepted = []
         exp_ret = []
@@ -111,7 +116,10 @@ def run(chk):
         lines += ["K %s | %s" % (base, t) for t in late_rules]
         lines += probes
         lines += ["Y %s ;; %s" % (base, tcases[0])]
+        # lou_free drops every addition, the display half included: afterwards the list is what its files say
         lines += ["Y %s ;; %s" % (other, trans.case_line("T", 4, [97, 98], 10))]
+        nfree = len(lines)
+        lines += ["F"] + ["Y %s ;; %s" % (base, c) for c in tcases[-4:] + tcases[:2]]
         # every other sequence with the image moved to a fresh block on every arena allocation (hook): pointers into the
         # image kept across an allocation are stale at once, not only when a growth happens to fall on that allocation
         # ... and every third one with tables created and grown WITHOUT slack (hook), so that every allocation goes through
@@ -162,7 +170,15 @@ def run(chk):
         if sig(outs[p0 + 4 + len(late_rules)]) != sig(got[0]):
             chk.violation("rejected-addition-had-effect", "a rejected addition changed the result", dict(base=base.read_text(), accepted_rules=accepted))
             continue
-        oth = outs[-1]
+        afterfree = outs[nfree + 1:nfree + 7]
+        reffree = common.run_stream(exe, ["e 1"], ["Y %s ;; %s" % (base, c) for c in tcases[-4:] + tcases[:2]], env=env, timeout=600)
+        badf = [(c, a, b) for c, a, b in zip(tcases[-4:] + tcases[:2], afterfree, reffree) if sig(a) != sig(b)]
+        if badf:
+            chk.violation("additions-survive-free", "after lou_free the list does not behave like its files any more (%d run-time additions before): %s vs %s"
+                          % (len(accepted), str(sig(badf[0][1]))[:200], str(sig(badf[0][2]))[:200]),
+                          dict(base=base.read_text(), accepted_rules=accepted, case_line=badf[0][0]))
+            continue
+        oth = outs[nfree - 1]
         exp_other = common.run_stream(exe, ["e 1"], ["K %s | always ab 1" % other, "Y %s ;; %s" % (other, trans.case_line("T", 4, [97, 98], 10))], env=env)
         if sig(oth) != sig(exp_other[-1]):
             chk.violation("other-list-affected", "additions to one list changed another list", dict(base=base.read_text(), accepted_rules=accepted))
